@@ -165,7 +165,8 @@ func (w *world) check(what string) {
 		case err != nil && err != kv.ErrNotFound:
 			c.failSig("", "%s: Get(%q): %v", what, k, err)
 		case err == kv.ErrNotFound:
-			if want != nil {
+			// a tombstone that a compaction into the base level dropped is not a change of contents
+			if want != nil && !want.del {
 				c.failSig("get-lost", "%s: Get(%q) = NotFound, want %s", what, k, estr(want))
 			}
 		default:
@@ -478,6 +479,7 @@ func Run(k *report.Check) {
 		k.Explore(name, mc.Config{}, ss, replayBody)
 		return
 	}
+	debug.SetMemoryLimit(28 << 30)
 	res := bfs(k, name, ss, maxDepth)
 	k.AddResult(res)
 	k.Extra["bfs_depth_completed"] = depthDone
@@ -626,7 +628,11 @@ func bfs(k *report.Check, name string, ss []setting, maxDepth int) *mc.Result {
 					if i%4096 == 0 {
 						var ms runtime.MemStats
 						runtime.ReadMemStats(&ms)
-						if ms.HeapAlloc > 16<<30 {
+						if ms.HeapAlloc > 20<<30 {
+							runtime.GC() // the garbage collector runs lazily (GC percent 400): measure live data
+							runtime.ReadMemStats(&ms)
+						}
+						if ms.HeapAlloc > 20<<30 {
 							mu.Lock()
 							stop = true
 							res.Exhaustive = false
